@@ -446,8 +446,67 @@ negative window does not contain (the generator maps negative `max_energy_diff` 
 example : ¬ (∀ i ∈ (filterConformers 1 (fun _ => 0) (fun _ _ => 1) 1 0 (some (-1))).accepted,
     (fun _ => (0 : Rat)) i ≤ (fun _ => (0 : Rat)) 0 + (-1)) := by decide +kernel
 
-/-- the resolved targets depend on the molecule and the options only -/
-theorem resolve_history_free (numConf first : Int) (r₁ r₂ : Nat) :
-    resolveTargets numConf first r₂ = resolveTargets numConf first r₂ := rfl
+/-! ## the automatic target and the generator object (reuse across molecules) -/
+
+/-- the function translated from the source (`Gen.genNumConf`, regenerated on every check) is the documented one -/
+theorem genNumConf_spec (r : Nat) : Gen.genNumConf r = autoNumConf r := by
+  unfold Gen.genNumConf autoNumConf
+  by_cases h1 : r < 8
+  · simp [h1]
+  · by_cases h2 : r ≤ 12
+    · have : r ≥ 8 := by omega
+      simp [h1, h2, this]
+    · have : r > 12 := by omega
+      have h3 : ¬ (r ≤ 12) := h2
+      simp [h1, h2, this]
+
+theorem genNumConf_values (r : Nat) : Gen.genNumConf r = 50 ∨ Gen.genNumConf r = 200 ∨ Gen.genNumConf r = 300 := by
+  rw [genNumConf_spec]; unfold autoNumConf
+  by_cases h1 : r < 8
+  · simp [h1]
+  · by_cases h2 : r ≤ 12 <;> simp [h1, h2]
+
+theorem genNumConf_pos (r : Nat) : 0 < Gen.genNumConf r := by
+  rcases genNumConf_values r with h | h | h <;> omega
+
+theorem genNumConf_mono {r s : Nat} (h : r ≤ s) : Gen.genNumConf r ≤ Gen.genNumConf s := by
+  rw [genNumConf_spec, genNumConf_spec]; unfold autoNumConf
+  split <;> split <;> (try split) <;> (try split) <;> omega
+
+/-- a call never changes the generator's options -/
+theorem generate_options (g : CGen) (rot : Nat) :
+    (g.generate rot).1.numConf = g.numConf ∧ (g.generate rot).1.first = g.first ∧ (g.generate rot).1.pool = g.pool := by
+  simp [CGen.generate, CGen.embed]
+
+/-- what a call uses depends on the options and the molecule, not on the state left by earlier molecules -/
+theorem generate_state_free (g : CGen) (mx fc : Int) (rot : Nat) :
+    ({ g with maxConformers := mx, firstConformers := fc } : CGen).generate rot = g.generate rot := by
+  simp [CGen.generate, CGen.embed]
+
+/-- a generator in any reachable state answers a molecule exactly as a fresh generator with the same options does -/
+theorem generate_eq_fresh (g : CGen) (rot : Nat) :
+    (g.generate rot).2 = ((CGen.new g.numConf g.first g.pool).generate rot).2 := by
+  cases g; rfl
+
+/-- over a whole history: the k-th molecule gets the answer of a fresh generator, whatever came before -/
+theorem runMols_eq_fresh (g : CGen) (rots : List Nat) :
+    (g.runMols rots).2 = rots.map (fun r => ((CGen.new g.numConf g.first g.pool).generate r).2) := by
+  induction rots generalizing g with
+  | nil => rfl
+  | cons r rs ih =>
+    have ho := generate_options g r
+    simp only [CGen.runMols, List.map_cons]
+    rw [ih (g.generate r).1, ho.1, ho.2.1, ho.2.2, ← generate_eq_fresh g r]
+
+/-- the reported target and the `first` the filter uses are the resolved ones -/
+theorem generate_targets (g : CGen) (rot : Nat) :
+    (g.generate rot).2.2.1 = (if g.numConf = -1 then ((Gen.genNumConf rot : Nat) : Int) else g.numConf) ∧
+    (g.generate rot).2.2.2 = (if g.first = -1 then (g.generate rot).2.2.1 else g.first) ∧
+    (g.generate rot).2.1 = (g.generate rot).2.2.1 * g.pool := by
+  simp [CGen.generate, CGen.embed]
+
+/-- with automatic targets, molecules of different rotatable-bond classes get their own targets from one object
+(the history that exposed the defect repaired by 8c7f593) -/
+example : ((CGen.new (-1) (-1) 1).runMols [11, 2]).2 = [(200, 200, 200), (50, 50, 50)] := by decide
 
 end E3fpVerif.Props.C13
